@@ -2215,6 +2215,56 @@ def desugar_adaptors(prog, fn):
                 blocks[bi] = nb
                 done.append("%s@bb%d" % (t["decl"].rsplit("::", 1)[-1], bi))
             continue
+        if not blocks[bi].get("cleanup") and t["k"] == "call" and t.get("decl") in ("core::option::Option::<T>::ok_or_else", "core::option::Option::<T>::ok_or") \
+                and t.get("target") is not None and not t["dest"]["p"] and len(t.get("args", [])) == 2:
+            #   o.ok_or_else(f)  ==  match o { Some(x) => Ok(x), None => Err(f()) }        o.ok_or(e)  ==  .. None => Err(e)
+            lazy = t["decl"].endswith("ok_or_else")
+            ca = callable_of(t["args"][1]) if lazy else None
+            o_ = t["args"][0].get("move") or t["args"][0].get("copy")
+            if o_ is not None and (ca is not None or not lazy):
+                at = t.get("at")
+                dest = t["dest"]["l"]
+                dd, r_ = new_local("isize"), new_local()
+
+                def res_agg(variant, op):
+                    return {"k": "agg", "agg": "adt", "adt": "core::result::Result", "adt_local": False, "variant": variant, "field_names": ["0"], "fields": [op]}
+                unreach = new_block([], {"k": "unreachable", "at": at})
+                some = new_block([assign(dest, res_agg("Ok", {"move": {"l": o_["l"], "p": list(o_["p"]) + [{"as": "Some"}, {"f": "0", "adt": "core::option::Option"}]}}), at)],
+                                 {"k": "goto", "target": t["target"], "at": at})
+                if lazy:
+                    after = new_block([assign(dest, res_agg("Err", {"move": {"l": r_, "p": []}}), at)], {"k": "goto", "target": t["target"], "at": at})
+                    none = emit_call(ca, [], r_, after, at)
+                else:
+                    none = new_block([assign(dest, res_agg("Err", t["args"][1]), at)], {"k": "goto", "target": t["target"], "at": at})
+                sw = new_block([assign(dd, {"k": "discr", "place": o_, "ty": "core::option::Option<?>", "adt": "core::option::Option", "variants": {"0": "None", "1": "Some"}}, at)],
+                               {"k": "switch", "discr": {"move": {"l": dd, "p": []}}, "discr_ty": "isize", "arms": [{"value": 0, "target": none}, {"value": 1, "target": some}], "otherwise": unreach, "at": at})
+                nb = dict(blocks[bi])
+                nb["term"] = {"k": "goto", "target": sw, "at": at}
+                blocks[bi] = nb
+                done.append("%s@bb%d" % (t["decl"].rsplit("::", 1)[-1], bi))
+            continue
+        if not blocks[bi].get("cleanup") and t["k"] == "call" and t.get("decl") == "core::option::Option::<T>::map_or" \
+                and t.get("target") is not None and not t["dest"]["p"] and len(t.get("args", [])) == 3:
+            #   o.map_or(d, f)  ==  match o { Some(x) => f(x), None => d }     (d is a value already computed)
+            ca = callable_of(t["args"][2])
+            o_ = t["args"][0].get("move") or t["args"][0].get("copy")
+            if ca is not None and o_ is not None:
+                at = t.get("at")
+                dest = t["dest"]["l"]
+                dd, x_, r_ = new_local("isize"), new_local(), new_local()
+                unreach = new_block([], {"k": "unreachable", "at": at})
+                after = new_block([assign(dest, {"k": "use", "a": {"move": {"l": r_, "p": []}}}, at)], {"k": "goto", "target": t["target"], "at": at})
+                call_entry = emit_call(ca, [x_], r_, after, at)
+                some = new_block([assign(x_, {"k": "use", "a": {"move": {"l": o_["l"], "p": list(o_["p"]) + [{"as": "Some"}, {"f": "0", "adt": "core::option::Option"}]}}}, at)],
+                                 {"k": "goto", "target": call_entry, "at": at})
+                none = new_block([assign(dest, {"k": "use", "a": t["args"][1]}, at)], {"k": "goto", "target": t["target"], "at": at})
+                sw = new_block([assign(dd, {"k": "discr", "place": o_, "ty": "core::option::Option<?>", "adt": "core::option::Option", "variants": {"0": "None", "1": "Some"}}, at)],
+                               {"k": "switch", "discr": {"move": {"l": dd, "p": []}}, "discr_ty": "isize", "arms": [{"value": 0, "target": none}, {"value": 1, "target": some}], "otherwise": unreach, "at": at})
+                nb = dict(blocks[bi])
+                nb["term"] = {"k": "goto", "target": sw, "at": at}
+                blocks[bi] = nb
+                done.append("map_or@bb%d" % bi)
+            continue
         if blocks[bi].get("cleanup") or t["k"] != "call" or not (t.get("decl") or "").startswith(ITER) or t.get("target") is None:
             continue
         kind = t["decl"][len(ITER):]
